@@ -1,18 +1,20 @@
 """Raptor relay of the agent scheduler (embedded into C05 and C08 as `relay:*`, not registered by itself).
 
-Implementation under test: the REAL AgentSchedulingComponent.work / _schedule_incoming / control_cb
-(register_raptor_queue, unregister_raptor_queue, cancel_tasks) on a real Continuous scheduler object built without
+Implementation under test: the REAL AgentSchedulingComponent.work / _schedule_incoming and the REAL
+BaseComponent._control_cb (which registers the uids of a cancel request on the component's cancel list and calls the
+scheduler's control_cb: register_raptor_queue, unregister_raptor_queue, cancel_tasks) with is_canceled, on a real
+Continuous scheduler object built without
 __init__ (harness/schedlib.py set-up, one node with enough cores for everything that is scheduled here), with
 recording stand-ins for ru.zmq.Putter and advance.  A case is a sequence of operations
 
     ['arrive', [[uid, name | None, raptor_seen, raptor_worker], ...]]   work(tasks): one bulk onto the scheduler queue
     ['drain']                                                           _schedule_incoming()
-    ['reg', name, qid] / ['unreg', name] / ['cancel', [uids]]           control_cb(...)
+    ['reg', name, qid] / ['unreg', name] / ['cancel', [uids]]           _control_cb(...) -> control_cb(...)
 
 (name 0 is the wildcard '*', name k > 0 is 'raptor.%04d' % k; every registration makes a new Putter, told apart by
 qid) or such a sequence followed by control_cb(a) and _schedule_incoming() in two real threads, one of them held after
 its k-th line (harness/interleave.py).  After every operation the effects it caused and the state (scheduler queue,
-registered queues in dict order, backlog in dict order) are recorded and compared with RP.Relay.Model inside Coq; the
+registered queues in dict order, backlog in dict order, cancel list, set of unregistered names) are recorded and compared with RP.Relay.Model inside Coq; the
 clauses are evaluated on the recorded trace (RP.Relay.Oracle)."""
 import itertools
 import json
@@ -27,7 +29,8 @@ from .core import Prop, rp_import, VERIF
 
 CLAUSES = ['forwarded_at_most_once', 'exactly_one_place', 'no_forward_after_final', 'cancel_in_backlog',
            'bystanders_unaffected', 'register_relays_all', 'unregister_fails_backlog',
-           'seen_and_workers_scheduled_here', 'no_wait_for_registered', 'linearizable']
+           'seen_and_workers_scheduled_here', 'no_wait_for_registered', 'cancel_on_queue', 'no_wait_for_gone_master',
+           'linearizable']
 NCORES = 96
 
 
@@ -75,9 +78,10 @@ class Driver(object):
                 self.emit(['fail', u])
         elif state == 'CANCELED':
             if push:
-                self.emit(['cancel', us])
-            elif us:
-                self.emit(['wpcancel', us])       # the wait pool is empty here: never expected
+                self.emit(['cancel', us])         # control_cb: one call for the whole request
+            else:
+                for u in us:                      # is_canceled (the _CANCEL item finds the wait pool empty: [])
+                    self.emit(['cancel1', u])
         elif state == SL.AGENT_EXECUTING_PENDING:
             for u in us:
                 self.emit(['sched1', u])
@@ -105,6 +109,7 @@ class Driver(object):
         s._raptor_queues = dict()
         s._raptor_tasks = dict()
         s._raptor_lock = threading.Lock()
+        s._raptor_gone = set()
 
         class Term(object):
             def is_set(self_inner):
@@ -145,7 +150,9 @@ class Driver(object):
         inq = [[self.untask(d) for d in data] for data, flag in list(s._queue_sched.queue) if flag == s._SCHEDULE]
         return {'inq': inq,
                 'queues': [[rnum(n), p.qid] for n, p in s._raptor_queues.items()],
-                'backlog': [[rnum(n), [SL.num_of(t['uid']) for t in ts]] for n, ts in s._raptor_tasks.items()]}
+                'backlog': [[rnum(n), [SL.num_of(t['uid']) for t in ts]] for n, ts in s._raptor_tasks.items()],
+                'clist': [SL.num_of(u) for u in s._cancel_list],
+                'gone': sorted(rnum(n) for n in s._raptor_gone)}
 
     def call(self, o):
         s = self.s
@@ -160,7 +167,9 @@ class Driver(object):
             msg = {'cmd': 'unregister_raptor_queue', 'arg': {'name': rname(o[1])}}
         else:
             msg = {'cmd': 'cancel_tasks', 'arg': {'uids': [SL.uid_of(u) for u in o[1]]}}
-        return lambda: s.control_cb('control_pubsub', msg)
+        # the scheduler process subscribes BaseComponent._control_cb: it registers the uids of a cancel request on the
+        # component's cancel list and then calls control_cb; every other command is passed on to control_cb
+        return lambda: s._control_cb('control_pubsub', msg)
 
     def run_ops(self, ops):
         out = []
@@ -187,7 +196,8 @@ class Driver(object):
                     fn()
                 return w
             s = self.s
-            codes = IL.code_of(type(s).control_cb, type(s)._schedule_incoming)
+            codes = IL.code_of(type(s).control_cb, type(s)._schedule_incoming, type(s)._control_cb,
+                               type(s).is_canceled)
             import sys
             old = sys.getswitchinterval()
             sys.setswitchinterval(0.05)
@@ -234,6 +244,8 @@ def c_out(e):
         return '(OFail %s)' % L.Z(e[1])
     if k == 'cancel':
         return '(OCancel %s)' % L.zlist(e[1])
+    if k == 'cancel1':
+        return '(OCancel1 %s)' % L.Z(e[1])
     if k == 'sched':
         return '(OSched %s)' % L.zlist(e[1])
     if k == 'warn':
@@ -246,9 +258,10 @@ def c_outs(es):
 
 
 def c_state(sn):
-    return '(mkS %s %s %s)' % (L.lst([L.lst([c_task(t) for t in b]) for b in sn['inq']]),
-                               L.lst(['(%s, %s)' % (L.Z(n), L.Z(q)) for n, q in sn['queues']]),
-                               L.lst(['(%s, %s)' % (L.Z(n), L.zlist(us)) for n, us in sn['backlog']]))
+    return '(mkS %s %s %s %s %s)' % (L.lst([L.lst([c_task(t) for t in b]) for b in sn['inq']]),
+                                     L.lst(['(%s, %s)' % (L.Z(n), L.Z(q)) for n, q in sn['queues']]),
+                                     L.lst(['(%s, %s)' % (L.Z(n), L.zlist(us)) for n, us in sn['backlog']]),
+                                     L.zlist(sn['clist']), L.zlist(sn['gone']))
 
 
 def c_obs(pre):
@@ -349,7 +362,7 @@ FIXED_PAIR = [
     ([['arrive', [T(1, 1), T(2, 1)]], ['drain'], ['arrive', [T(3, 1)]]], ['cancel', [1, 3]]),
     ([['reg', 1, 1], ['arrive', [T(1, 1), T(2, 0)]]], ['unreg', 1]),
 ]
-PAIR_KS = {'inc': 60, 'ctl': 30}       # more lines than either call executes on these cases
+PAIR_KS = {'inc': 75, 'ctl': 60}       # more lines than either call executes on these cases
 
 
 class Relay(Prop):
@@ -360,16 +373,18 @@ class Relay(Prop):
     model_targets = ['Relay/Oracle.vo']
     header = 'From RP Require Import Relay.Model Relay.Oracle.'
     clauses = CLAUSES
-    corr_name = ('Relay.Model.trace vs the real AgentSchedulingComponent.work / _schedule_incoming / control_cb '
-                 '(register_raptor_queue, unregister_raptor_queue, cancel_tasks): effects of every call and the '
-                 'scheduler queue, registered queues and backlog after it')
+    corr_name = ('Relay.Model.trace vs the real AgentSchedulingComponent.work / _schedule_incoming / '
+                 'BaseComponent._control_cb + control_cb (register_raptor_queue, unregister_raptor_queue, cancel_tasks) '
+                 '/ is_canceled: effects of every call and the scheduler queue, registered queues, backlog, cancel '
+                 'list and unregistered names after it')
     trusted = ['raptor relay: harness/relay.py (real Continuous scheduler object without __init__ as in '
                'harness/schedlib.py, recording stand-ins for ru.zmq.Putter and advance; two real threads with one held '
                'by a line tracer, harness/interleave.py)']
     rule = ('raptor relay: directed sequences; random sequences of 3-16 work / _schedule_incoming / register / '
             'unregister / cancel calls with 0-3 raptor masters, wildcard traffic, a queue called *, re-registration, '
-            'unregister and register again, cancels naming waiting / forwarded / unknown uids, bulks mixing names, '
-            'tasks without raptor id / seen by raptor / raptor workers, a few repeated uids; control_cb against '
+            'unregister and register again, cancels naming waiting / still queued / forwarded / unknown uids, tasks '
+            'for unregistered masters, bulks mixing names, '
+            'tasks without raptor id / seen by raptor / raptor workers, a few repeated uids; _control_cb against '
             '_schedule_incoming in two threads at seed-chosen hold points; thorough: every sequence of <= 4 steps '
             'over a 9-letter alphabet')
 
@@ -453,7 +468,7 @@ class Relay(Prop):
         row = '(pair_row %s %s %s %s %s %s)' % (ops, c_obs(obs['pre']), c_op(case['a']), c_outs(obs['ea']),
                                                 c_outs(obs['eb']), c_state(obs['fin']))
         if any(obs['exc']):
-            row = '(firstn 10 %s ++ [false])' % row
+            row = '(firstn 12 %s ++ [false])' % row
         return row
 
     def model_show(self, case):
